@@ -114,7 +114,7 @@ def parse(path):
                 args.append('t.creg' if out['kind'] == 'reg' else 't.c')
             elif what == 'in':
                 x = ins[idx]; s = x['slot']
-                args.append({'arr': 't.%s' % s, 'scalar': 't.%ss' % s, 'reg': 't.%sreg' % s}[x['kind']])
+                args.append({'arr': 't.%s' % s, 'scalar': '(*t.p%ss)' % s, 'reg': 't.%sreg' % s}[x['kind']])
             else:
                 s = strides[idx]
                 args.append(('t.i%s' if s['arr'] else 't.s%s') % s['tgt'])
